@@ -49,6 +49,7 @@ type LoopSpec struct {
 	Decreases  *Clause
 	Complete   []string // tags: the loop is left only through its header (every element of a range is visited)
 	AtEnd      []*Clause // asserted at the end of every iteration (each back edge), over the body's variables
+	AtEntry    []*Clause // asserted when the loop is entered (not an invariant)
 }
 
 type AtCall struct {
@@ -72,6 +73,7 @@ type Contract struct {
 	AtStores []*AtCall // Callee holds the field key "Type.field"
 	AtReturns []*Clause
 	Inline   bool
+	Interference bool // re-acquiring a lock released earlier in the function havocs the heap (other goroutines ran)
 	Trusted  bool // body not verified; contract assumed at call sites (reported)
 	Safety   []string // tags for which implicit safety obligations are claimed
 	Serial   []string // tags for the serial-number comparison audit
@@ -246,7 +248,7 @@ func (p *Program) parseContractFile(fname string, f *ast.File) error {
 		}
 	}
 	// join continuation lines: a line is a continuation unless it starts with a keyword
-	kw := regexp.MustCompile(`^(func|requires|ensures|assume|modifies|tags|loop|at|inline|trusted|safety|serialaudit|auditserial|noverify|pred|clause|writers)\b`)
+	kw := regexp.MustCompile(`^(func|requires|ensures|assume|modifies|tags|loop|at|inline|trusted|safety|serialaudit|auditserial|interference|noverify|pred|clause|writers)\b`)
 	var joined []line
 	for _, l := range lines {
 		if kw.MatchString(l.text) || len(joined) == 0 {
@@ -392,6 +394,8 @@ func (p *Program) parseContractFile(fname string, f *ast.File) error {
 			cur.Serial = append(cur.Serial, fields[1:]...)
 		case "inline":
 			cur.Inline = true
+		case "interference":
+			cur.Interference = true
 		case "trusted":
 			cur.Trusted = true
 		case "noverify":
@@ -423,10 +427,14 @@ func (p *Program) parseContractFile(fname string, f *ast.File) error {
 				}
 				continue
 			}
-			atEnd := false
+			atEnd, atEntry := false, false
 			if strings.HasPrefix(sub, "atend ") {
 				atEnd = true
 				sub = strings.TrimSpace(strings.TrimPrefix(sub, "atend "))
+			}
+			if strings.HasPrefix(sub, "atentry ") {
+				atEntry = true
+				sub = strings.TrimSpace(strings.TrimPrefix(sub, "atentry "))
 			}
 			for _, txt := range p.expandPred(sub) {
 				cl, err := mkClause(txt)
@@ -435,6 +443,10 @@ func (p *Program) parseContractFile(fname string, f *ast.File) error {
 				}
 				if atEnd {
 					ls.AtEnd = append(ls.AtEnd, cl)
+					continue
+				}
+				if atEntry {
+					ls.AtEntry = append(ls.AtEntry, cl)
 					continue
 				}
 				if cl.Kind == "decreases" {
@@ -676,6 +688,10 @@ func (p *Program) bindAll() {
 				p.bindClause(c, cl, lpos, false)
 			}
 			for _, cl := range ls.AtEnd {
+				cl.Kind = "invariant"
+				p.bindClause(c, cl, lpos, false)
+			}
+			for _, cl := range ls.AtEntry {
 				cl.Kind = "invariant"
 				p.bindClause(c, cl, lpos, false)
 			}
